@@ -45,13 +45,13 @@ package reader
 //@ func (*Reader).Read
 //@   requires inv(r)
 //@   ensures inv(r) && r.base == old(r.base)
-//@   ensures 0 <= n && n <= old(len(r.data)) ==> err == nil && result == old(r.data)[:n] && r.count == old(r.count) + n
+//@   ensures 0 <= n && n <= old(len(r.data)) ==> err == nil && sameview(result, old(r.data)[:n]) && r.count == old(r.count) + n
 //@   ensures !(0 <= n && n <= old(len(r.data))) ==> err != nil && len(result) == 0 && r.count == old(r.count) && r.data == old(r.data)
 //@   modifies r.data, r.count
 
 //@ func (*Reader).Peek
 //@   requires inv(r)
-//@   ensures 0 <= n && n <= len(r.data) ==> err == nil && result == r.data[:n]
+//@   ensures 0 <= n && n <= len(r.data) ==> err == nil && sameview(result, r.data[:n])
 //@   ensures !(0 <= n && n <= len(r.data)) ==> err != nil && len(result) == 0
 
 //@ func (*Reader).PeekUint16
